@@ -374,7 +374,8 @@ S22(d) == WithSec(d, "clients", LAMBDA x :
            : p \in FV(x["clients.persistent"], "list")})
 
 \* Strings the spec knows not to be IP addresses (step 23 fails on them).
-NotIP == {ZS, "lit:\"zz\"", "lit:\"127.0.0.1:80\""}
+\* (all the strings of the deviation vocabulary that are not addresses)
+NotIP == {ZS, "lit:\"zz\"", "lit:\"127.0.0.1:80\"", LongStr}
 S23(d) == UNION {CASE h.k = "err" -> {ErrO}
                    [] h.k = "no" -> {Ok(d)}
                    [] OTHER ->
